@@ -30,10 +30,12 @@ pub fn all() -> Vec<&'static Prop> {
 pub fn worker_main(kind: &str, _args: &[String]) -> i32 {
     match kind {
         "c01" => c01::worker(),
+        "c01r" => c01::worker_registered(),
         "c05" => c05::worker(),
         "c08" => c08::worker(),
         "c10" => c10::worker(),
         "c11" => c11::worker(),
+        "c11r" => c11::worker_registered(),
         "c13" => c13::worker(),
         "c14" => c14::worker(),
         "c16" => c16::worker(),
@@ -53,7 +55,7 @@ pub fn register_op(op: &J, id: i64) {
         "infix" => register_infix_op(
             name,
             op["prec"].as_i64().unwrap_or(100) as i32,
-            InfixOpType::CALC,
+            if op["setter"].as_bool().unwrap_or(false) { InfixOpType::SETTER } else { InfixOpType::CALC },
             if op["right"].as_bool().unwrap_or(false) { InfixOpAssociativity::RIGHT } else { InfixOpAssociativity::LEFT },
             Arc::new(move |a, b| Ok(Value::List(vec![Value::from(id), a, b]))),
         ),
